@@ -63,13 +63,15 @@ class Slot:
     shape: str | None = None  # None = Class[None] (scalar)
     optional: bool = False
     value: tuple = ("N",)  # ("N",) | ("X",) | ("T", dtcode, dims)
+    meta: bool = False  # a non-optional HINT carries further metadata after the dltype annotation
     spell: str = "1"  # how an optional HINT is written in a signature: 1 `T | None`, 4 Optional[T], 5 `None | T`, 7 Optional[Optional[T]]
 
     def spec(self, hint: bool = False) -> str:
         """`hint` = the spec is rendered as a type hint of a signature (CALL lines), not as an annotation object (CTX lines)"""
         if self.cls is None:
             return "-"
-        return f"{self.cls},{(self.spell if hint else 1) if self.optional else 0},{'<None>' if self.shape is None else self.shape}"
+        plain = "A" if (hint and self.meta) else 0   # A = `Annotated[base, ann, 'unit: px']` (further metadata after the annotation)
+        return f"{self.cls},{(self.spell if hint else 1) if self.optional else plain},{'<None>' if self.shape is None else self.shape}"
 
     def val(self) -> str:
         v = self.value
@@ -92,10 +94,11 @@ class Ctx:
     params: list[Param] = field(default_factory=list)
     ret: Param | None = None
     tags: list[str] = field(default_factory=list)
+    npkeys: set = field(default_factory=set)  # provider names whose size is a numpy integer, not a Python int
     alias: bool = False  # positions with identical (class, shape) share ONE annotation object (a type alias) in CALL lines
 
     def scope_str(self) -> str:
-        return ";".join(f"{k}:{v}" for k, v in self.scope.items())
+        return ";".join(f"{k}:{v}{'n' if k in self.npkeys else ''}" for k, v in self.scope.items())
 
     def ctx_line(self) -> str:
         cmds = [f"A|{p.name}|{';'.join(s.spec() for s in p.slots)}|{';'.join(s.val() for s in p.slots)}" for p in self.params]
@@ -106,7 +109,7 @@ class Ctx:
             cmds.append("V")
         return "CTX\t" + self.scope_str() + "\t" + "\t".join(cmds)
 
-    def call_line(self, kind: str = "func", style: str = "pos", prov: str | None = None, omit: int = 0) -> str:
+    def call_line(self, kind: str = "func", style: str = "pos", prov: str | None = None, omit: int = 0, explicit: bool = False) -> str:
         """the same context presented through an entry point"""
         if prov is None:
             prov = "obj" if self.scope else "-"
@@ -122,19 +125,27 @@ class Ctx:
                 items.append(f"R|T|{';'.join(s.spec(True) for s in p.slots)}|{p.seq}:{';'.join(s.val() for s in p.slots)}")
             else:
                 items.append(f"R|S|{p.slots[0].spec(True)}|{p.slots[0].val()}")
-        if omit and kind in ("func", "method"):
+        if omit and kind in ("func", "method", "nt", "dc"):
             # the last `omit` parameters have their value as DEFAULT and the caller leaves them out
             idx = [i for i, it in enumerate(items) if it.startswith("P|")]
-            for i in idx[len(idx) - min(omit, len(idx)):]:
-                items[i] = "PD|" + items[i][2:]
+            for j, i in enumerate(idx[len(idx) - min(omit, len(idx)):]):
+                # (every other one of them is passed explicitly although it has the default: `PE`)
+                items[i] = ("PE|" if explicit and j % 2 == 1 else "PD|") + items[i][2:]
         if self.alias:
             items.append("AL")
         return "\t".join(["CALL", f"{kind}:{style}", prov, self.scope_str(), *items])
 
-    def rand_call(self, rng, kind: str = "func", styles=("pos", "kw", "mixed", "fwd", "kwonly", "posonly"), omit_p: float = 0.3) -> str:
-        """the context as a call with every feature of the call protocol drawn at random: call style, trailing parameters left at
-        their default value"""
-        return self.call_line(kind, rng.choice(list(styles)), omit=(rng.randint(1, 3) if rng.random() < omit_p else 0))
+    def rand_call(self, rng, kind: str | None = None, styles=("pos", "kw", "mixed", "fwd", "kwonly", "posonly"), omit_p: float = 0.3) -> str:
+        """the context as a call with every feature of the call protocol drawn at random: function or method (whose instance is
+        the scope provider: "self"), call style (a method also through the class with the receiver by keyword), trailing
+        parameters left at their default value or passed although they have one"""
+        if kind is None:
+            kind = "method" if rng.random() < 0.25 else "func"
+        prov = None
+        if kind == "method":
+            styles = (*styles, "kwself", "kwself")
+            prov = "self" if self.scope else "-"
+        return self.call_line(kind, rng.choice(list(styles)), prov=prov, omit=(rng.randint(1, 3) if rng.random() < omit_p else 0), explicit=rng.random() < 0.5)
 
     def entries(self) -> list[oracle.Ent] | None:
         """flattened annotated non-None tensors in source order; None if a value is not checkable (X, or None under a non-optional hint)"""
@@ -248,6 +259,8 @@ def gen_ctx(rng, max_tensors=4, tuple_p=0.2, ret_p=0.3, provider_p=0.3, libs=(0,
     if rng.random() < provider_p:
         for k in rng.sample(["a", "b", "d", "k"], rng.randint(1, 2)):
             ctx.scope[k] = sig.get(k, 7)
+            if rng.random() < 0.25:
+                ctx.npkeys.add(k)
         ctx.tags.append("provider")
     nt = rng.randint(1, max_tensors)
     names = ["x", "y", "z", "w", "v"]
@@ -264,7 +277,7 @@ def gen_ctx(rng, max_tensors=4, tuple_p=0.2, ret_p=0.3, provider_p=0.3, libs=(0,
             shape = tuple(rng.choice(SIZES) for _ in dims)
         lib = rng.choice(libs)
         return Slot(cls_idx(cname), " ".join(dims) if dims else None, rng.random() < 0.15, ("T", dt(lib, rng.choice(CLASS_ALL[cname])), shape),
-                    spell=rng.choice(["1", "1", "4", "5", "7"])), cname
+                    spell=rng.choice(["1", "1", "4", "5", "7"]), meta=rng.random() < 0.15), cname
 
     all_slots = []
     def mk_tuple(name):
